@@ -162,7 +162,13 @@ fn table_entry<F: Fl>(g: &mut Sm64, specials: bool) -> F {
             return F::nan();
         }
     }
-    // dyadic rationals m/8, |value| <= 8: every sum of four of them is exact in f32 and f64
+    // dyadic rationals: every sum of four of them is exact in f32 and f64. Mostly m/8 with
+    // |value| <= 8; sometimes large magnitudes, so that ratios reach beyond the range where
+    // exp() under/overflows (a rule evaluated in probability space then differs at u = 0)
+    if specials && g.chance(0.08) {
+        let big = *g.choose(&[16.0, 64.0, 128.0, 512.0, 1024.0]);
+        return F::of(if g.bool() { big } else { -big });
+    }
     let m = g.range(0, 128) as f64 - 64.0;
     F::of(m / 8.0)
 }
